@@ -69,6 +69,34 @@ def spec_oracle(cfg, r, r1):
     return out[:4]
 
 
+def own_generator_cases(rnd, wd):
+    """thinned = every t-th unthinned column for runs that use the sampler's own seeded generator (seed 0 included)"""
+    import contextlib
+    import io
+    import os
+    import hmclab
+    out = []
+    target = hmclab.Distributions.Normal(numpy.array([[0.5], [-0.25]]), numpy.array([[1.0], [2.0]]))
+    for sd in (0, 1, rnd.randrange(2, 1 << 20)):
+        for kind in ("rwmh", "hmc"):
+            be = rnd.choice(["h5", "npy"])
+            t = rnd.choice([2, 3, 4])
+            cols = {}
+            for thin in (1, t):
+                cls = hmclab.Samplers.RWMH if kind == "rwmh" else hmclab.Samplers.HMC
+                f = os.path.join(wd, f"own_{thin}.{be}")
+                kw = dict(stepsize=0.4, **({"amount_of_steps": 3} if kind == "hmc" else {}))
+                with contextlib.redirect_stdout(io.StringIO()), numpy.errstate(all="ignore"):
+                    cls(seed=sd).sample(f, target, proposals=12 * t, online_thinning=thin, initial_model=numpy.zeros((2, 1)), overwrite_existing_file=True,
+                                        disable_progressbar=True, **kw)
+                with hmclab.Samples(f) as s:
+                    cols[thin] = numpy.array(s.numpy)
+            if cols[t].shape != cols[1][:, ::t].shape or cols[t].tobytes() != cols[1][:, ::t].tobytes():
+                out.append(("thinning", f"{kind}, seed={sd}, {be}: the run with thinning {t} is not every {t}-th column of the unthinned run with the same seed"))
+    numpy.seterr(all="warn")
+    return out
+
+
 def run(tier, seed):
     rnd = random.Random(seed * 7919 + 7)
     n = 110 if tier == "quick" else 1500
@@ -88,6 +116,8 @@ def run(tier, seed):
             dist["long_runs"] += 1
             for key, what in spec_oracle(cfgL, rL, None):
                 violations.append(Violation(key, what, {"case": cfgL, "long_run": True}))
+        for key, what in own_generator_cases(rnd, wd):
+            violations.append(Violation(key, what, {"own_generator": what}))
         for i in range(n):
             t = rnd.choice([1, 2, 3, 4, 5, 6])
             cfg = sr.gen_run(rnd, thin=t, maxP=(12 if tier == "quick" else 60))
